@@ -228,6 +228,21 @@ def gen_scenarios(ctx, table):
                "phantom": -(f["obj"] + 1), "mut": {"kind": "none"}} for i, f in enumerate(fl)]
     mk(objs, ops, fl, probes, name="params")
 
+    # 3b. two objects under one key (re-registration with another prefix id): only the stored object's own
+    #     validation counts
+    for variant in range(3):
+        s2 = rhex(rng, 32)
+        ida, idb = rng.sample(table_ids, 2)
+        objs = [{"secret": s2, "transport": "prefix", "phantom": 0, "libver": 4, "params": {"kind": "prefix", "prefix_id": ida}},
+                {"secret": s2, "transport": "prefix", "phantom": 0, "libver": 4, "params": {"kind": "prefix", "prefix_id": idb}}]
+        ops = [[("track", 0), ("validate", 1)],
+               [("validate", 1), ("track", 0), ("validate", 0)],
+               [("validate", 0), ("expire", 0), ("track", 1), ("validate", 0), ("validate", 1)]][variant]
+        ops = [{"op": a, "obj": b} for a, b in ops]
+        fl = [{"kind": "genuine", "obj": k, "prefix_id": objs[k]["params"]["prefix_id"], "station": 0, "extra": "", "role": "own"} for k in (0, 1)]
+        probes = [{"flight": i, "transport": "prefix", "phantom": 0, "mut": {"kind": "none"}} for i in (0, 1)]
+        mk(objs, ops, fl, probes, name="revalidate")
+
     # 4. table-driven reveal function and custom prefix tables (iteration-order dependence, thresholds)
     for _ in range(1 if quick else 6):
         scs.append(gen_synthetic(rng, 120 if quick else 400))
@@ -285,6 +300,14 @@ def gen_synthetic(rng, n_streams):
         flights.append({"kind": "raw", "hex": data.hex(), "role": "synthetic", "extra": ""})
         probes.append({"flight": len(flights) - 1, "transport": "prefix", "phantom": rng.choice([0, 0, 0, 1, 2]),
                        "mut": {"kind": "none"}, "repeat": 6})
+    # engineered: two terminal verdicts in one stream (row 1 reveals a Prefix registration of prefix id 1, row 2 the
+    # min registration), so that the result depends on which row Go's map iteration reaches first
+    for _ in range(5):
+        data = bytes.fromhex("414243" + rhex(rng, 70))
+        reveal[(rng.choice([0, 1]), data[2:66].hex())] = ids[0]
+        reveal[(rng.choice([0, 1]), data[3:67].hex())] = ids[3]
+        flights.append({"kind": "raw", "hex": data.hex(), "role": "synthetic", "extra": ""})
+        probes.append({"flight": len(flights) - 1, "transport": "prefix", "phantom": 0, "mut": {"kind": "none"}, "repeat": 16})
     return {"nkeys": 2, "phantoms": PHANTOMS, "objects": objs, "ops": ops, "flights": flights, "probes": probes,
             "table": SYN_TABLE, "reveal": [[str(k), c, v] for (k, c), v in reveal.items()], "name": "synthetic", "subnets": ""}
 
@@ -310,6 +333,7 @@ class Scn:
         self.phs = {s: i for i, s in enumerate(sorted(names))}
         self.objs = out["objects"]
         self.ids = {o["id"] for o in self.objs if o["id"]}
+        self.foreign_validates = 0
 
     def reg_term(self, k):
         o = self.objs[k]
@@ -346,7 +370,11 @@ class Scn:
             if op["op"] == "track":
                 st.setdefault(key, [op["obj"], False])
             elif op["op"] == "validate":
-                st.setdefault(key, [op["obj"], False])[1] = True
+                e = st.setdefault(key, [op["obj"], False])
+                if e[0] == op["obj"]:       # register() validates only the caller's own object
+                    e[1] = True
+                else:
+                    self.foreign_validates += 1
             elif op["op"] == "expire":
                 st.pop(key, None)
         return st
@@ -543,6 +571,8 @@ def run(ctx):
             if len(fo["hex"]) <= 2 * lib.BIG * 6:
                 defs.append("Definition fl_%d_%d : bytes := Eval vm_compute in %s." % (si, fi, hexs(bytes.fromhex(fo["hex"]))))
         live = S.live()
+        if S.foreign_validates:
+            ctx.cov["histogram"]["history/validate-by-other-object"] = ctx.cov["histogram"].get("history/validate-by-other-object", 0) + 1
         # registry view correspondence
         for ph, view in o["views"].items():
             vo = "(@nil vobs)" if not view else "[" + "; ".join("(%s, %s, %s, %s)" % (hexs(bytes.fromhex(e["id"])), gN(e["obj"] + 1), gN(e["transport"]),
@@ -621,7 +651,8 @@ def run(ctx):
                        "prefix/incorrect_transport", "prefix/incorrect_prefix", "obfs4/found", "obfs4/tryagain", "obfs4/nottransport",
                        "obfs4/err_other", "probe/cross-phantom", "probe/cross-transport", "probe/min-tag-as-prefix-flight",
                        "probe/wrong-prefix", "probe/foreign-station", "probe/bitflip", "probe/truncated", "probe/untracked-or-expired",
-                       "probe/unvalidated", "probe/genuine", "view/nonempty", "view/empty", "object/rejected-at-ingest"])
+                       "probe/unvalidated", "probe/genuine", "view/nonempty", "view/empty", "object/rejected-at-ingest",
+                       "history/validate-by-other-object"])
     lap("oracle+emit")
     dname = "defs_C02_%d" % os.getpid()
     rc, o3 = ctx.coq_eval(dname, HEADER + "\n".join(defs) + "\n")
